@@ -34,6 +34,82 @@ type Baseline struct {
 	Families map[string][]string `json:"families"`
 	// function -> local declarations in source order on the delivered tree (lets contracts survive renamed locals)
 	Locals map[string][]LocalDecl `json:"locals,omitempty"`
+	// function -> loop headers in source order on the delivered tree (`loop N:` clauses survive inserted loops)
+	Loops map[string][]string `json:"loops,omitempty"`
+}
+
+// loopPrints lists the loop headers of a function in source order ("range <expr>" / "for <cond>").
+func loopPrints(fd *ast.FuncDecl) []string {
+	var out []string
+	if fd == nil || fd.Body == nil {
+		return nil
+	}
+	ast.Inspect(fd.Body, func(n ast.Node) bool {
+		switch x := n.(type) {
+		case *ast.RangeStmt:
+			out = append(out, "range "+types.ExprString(x.X))
+		case *ast.ForStmt:
+			c := ""
+			if x.Cond != nil {
+				c = types.ExprString(x.Cond)
+			}
+			out = append(out, "for "+c)
+		}
+		return true
+	})
+	return out
+}
+
+var baseLoops map[string][]string
+
+// alignLoops maps the loops of the current function (1-based source order) to the loop ordinals the contract was
+// written against: positional when the number of loops is unchanged, otherwise a longest-common-subsequence
+// alignment of the loop headers; a loop without a partner gets an ordinal no contract clause names.
+func alignLoops(fname string, cur []string) []int {
+	out := make([]int, len(cur))
+	for i := range out {
+		out[i] = i + 1
+	}
+	if baseLoops == nil {
+		loadBaseLocals()
+	}
+	base, ok := baseLoops[fname]
+	if !ok || len(base) == len(cur) {
+		return out
+	}
+	n, m := len(base), len(cur)
+	l := make([][]int, n+1)
+	for i := range l {
+		l[i] = make([]int, m+1)
+	}
+	for i := n - 1; i >= 0; i-- {
+		for j := m - 1; j >= 0; j-- {
+			if base[i] == cur[j] {
+				l[i][j] = l[i+1][j+1] + 1
+			} else if l[i+1][j] >= l[i][j+1] {
+				l[i][j] = l[i+1][j]
+			} else {
+				l[i][j] = l[i][j+1]
+			}
+		}
+	}
+	for j := range out {
+		out[j] = 100 + j + 1
+	}
+	i, j := 0, 0
+	for i < n && j < m {
+		switch {
+		case base[i] == cur[j]:
+			out[j] = i + 1
+			i++
+			j++
+		case l[i+1][j] >= l[i][j+1]:
+			i++
+		default:
+			j++
+		}
+	}
+	return out
 }
 
 type LocalDecl struct {
@@ -61,6 +137,10 @@ func loadBaseLocals() {
 	var base Baseline
 	loadJSON(filepath.Join(verifDir, "baseline", "families.json"), &base)
 	baseLocals = base.Locals
+	baseLoops = base.Loops
+	if baseLoops == nil {
+		baseLoops = map[string][]string{}
+	}
 }
 
 func loadJSON(path string, v any) error {
@@ -215,9 +295,15 @@ func report(w *World, res *checkResult, tier string, seed int, cfg SolverCfg, t0
 		if base.Locals == nil {
 			base.Locals = map[string][]LocalDecl{}
 		}
+		if base.Loops == nil {
+			base.Loops = map[string][]string{}
+		}
 		for _, r := range res.funcs {
 			if len(r.Locals) > 0 {
 				base.Locals[r.Func] = r.Locals
+			}
+			if len(r.LoopHeaders) > 0 {
+				base.Loops[r.Func] = r.LoopHeaders
 			}
 		}
 		os.MkdirAll(filepath.Join(verifDir, "baseline"), 0o755)
